@@ -205,7 +205,8 @@ impl RecvWindow {
         self.check_data_integrity(hdr, payload, mtu)?;
 
         if let Some(msg_len) = hdr.get_msg_len() {
-            if msg_len <= mtu && !hdr.is_final() {
+            // The segment carries the BTP header as well, so the SDU fits only if both do
+            if msg_len as usize + hdr.len() <= mtu as usize && !hdr.is_final() {
                 warn!("RX data integrity failure: An SDU that fits in a single BTP segment must be final");
                 Err(ErrorCode::InvalidData)?;
             }
